@@ -452,6 +452,39 @@ def gen_idiom(rng, g):
     return q
 
 
+def gen_nest(rng, names):
+    """Three to five called lambdas inside one another under a stage lambda, parameter names drawn
+    from a pool of three (so an inner parameter often re-uses the name of an outer binder whose
+    value travels inwards through another parameter), the sequence parameter looked at through
+    First(...) with an index / attribute in the innermost body; positional or keyword arguments."""
+    pool = rng.sample(list(names), 3)
+    e = rng.choice(pool)
+    k = rng.randint(3, 5)
+    p0 = rng.choice(pool)
+    rest_pool = [n for n in pool if n != p0]
+    params = [p0] + [rng.choice(rest_pool) for _ in range(k - 1)]
+    j = rng.choice(pool)
+    args = [rng.choice([f"{e}.jets", f"Where({e}.jets, lambda {j}: {j}.pt >= 0)",
+                        f"Select({e}.jets, lambda {j}: {j})"])]
+    for i in range(1, k):
+        opts = [str(rng.randint(0, 5))]
+        if e not in params[:i]:
+            opts += [f"{e}.x", f"{e}.w + {rng.randint(0, 3)}"]
+        else:
+            opts += [f"Count({p0})"] if p0 not in params[1:i] else []
+        args.append(rng.choice(opts))
+    first = rng.choice([f"First({p0}).pt", f"First({p0}).eta", f"{p0}.First().pt",
+                        f"First(Select({p0}, lambda {j}: ({j}.pt, {j}.eta)))[{rng.randint(0, 1)}]",
+                        f"First(Select({p0}, lambda {j}: {{'a': {j}.pt, 'b': {j}.eta}})).{rng.choice('ab')}"])
+    body = " + ".join([first] + sorted(set(params[1:])))
+    kw = rng.random() < 0.4
+    for i in range(k - 1, -1, -1):
+        a = f"{params[i]}={args[i]}" if kw and rng.random() < 0.7 else args[i]
+        body = f"(lambda {params[i]}: {body})({a})"
+    guard = f"Where(ds, lambda {j}: Count({j}.jets) > 0)"
+    return f"Select({guard}, lambda {e}: {body})"
+
+
 def gen_query(rng, names, reuse=0.0, helpers=None):
     if rng.random() < 0.15:
         q = gen_idiom(rng, Gen(rng, names, reuse, helpers))
@@ -572,6 +605,11 @@ def generate(prop, seed, tier="quick", fault_free=False):
               "recursion_limit": 3000 if fault_free else c.choice([1000, 3000])}
     # fault kinds added later draw from their own PRNG sub-stream: the cases of runs that do not
     # enable them are exactly what they were before
+    nst = st.get("nest")
+    if nst.random() < 0.35:
+        # a chain of called lambdas three to five deep (own sub-stream, as below)
+        at = nst.randrange(len(ops) + 1)
+        ops = ops[:at] + [{"op": "serve", "q": gen_nest(nst, names)}] + ops[at:]
     x = st.get("faults2")
     if not fault_free and x.random() < 0.05:
         at = x.randrange(len(ops) + 1)
